@@ -83,8 +83,10 @@ def dumpAtomsFrom (T : Tables) (L : Layout) : Nat → List Atom → List Str
   | k, a :: as => dumpAtom T L (k + 1) a :: dumpAtomsFrom T L (k + 1) as
 
 /-- `connections[iatom0].append(iatom1); connections[iatom1].append(iatom0)` -/
+def partner (a : Nat) (p : Nat × Nat) : List Nat := (if p.1 = a then [p.2] else []) ++ (if p.2 = a then [p.1] else [])
+
 def connections (natom : Nat) (bonds : List (Nat × Nat)) : List (List Nat) :=
-  (List.range natom).map fun a => bonds.flatMap fun (i, j) => (if i = a then [j] else []) ++ (if j = a then [i] else [])
+  (List.range natom).map fun a => bonds.flatMap (partner a)
 
 def chunk4 : Nat → List Nat → List (List Nat)
   | 0, _ => []
@@ -134,22 +136,22 @@ def parseAtom (T : Tables) (L : Layout) (line : Str) : R Atom :=
         .ok ⟨zn, name, strip (sl L.sRes line), chain, rn, x, y, z, occ, b⟩
       | _, _, _, _, _, _ => .error .float
 
+/-- one pass of `for ipos in 11, 16, 21, 26` of `_parse_pdb_conect_line` (`acc`: what the later positions gave) -/
+def conectField (a : Int) (line : Str) (p : Nat × Nat) (acc : R (List (Nat × Nat))) : R (List (Nat × Nat)) :=
+  match acc with
+  | .error e => .error e
+  | .ok rest =>
+    let t := strip (sl p line)
+    if t.isEmpty then .ok rest else
+    match pyInt t with
+    | none => .error .int
+    | some s1 => if a < s1 - 1 then (if 0 ≤ a then .ok ((a.toNat, (s1 - 1).toNat) :: rest) else .error .format) else .ok rest
+
 /-- `_parse_pdb_conect_line`: zero-based pairs with `iatom1 > iatom0` -/
 def parseConect (L : Layout) (line : Str) : R (List (Nat × Nat)) :=
   match pyInt (sl L.cSerial line) with
   | none => .error .int
-  | some s0 =>
-    let a : Int := s0 - 1
-    L.cOthers.foldr (fun p acc =>
-      match acc with
-      | .error e => .error e
-      | .ok rest =>
-        let t := strip (sl p line)
-        if t.isEmpty then .ok rest else
-        match pyInt t with
-        | none => .error .int
-        | some s1 => if a < s1 - 1 then (if 0 ≤ a then .ok ((a.toNat, (s1 - 1).toNat) :: rest) else .error .format) else .ok rest)
-      (.ok [])
+  | some s0 => L.cOthers.foldr (conectField (s0 - 1) line) (.ok [])
 
 structure St where
   titles : List Str
@@ -259,6 +261,25 @@ def Dom (T : Tables) (L : Layout) (o : Obj) : Prop :=
   (∀ a ∈ o.atoms, AtomOK T L a) ∧ o.bonds = []
 
 instance (T : Tables) (L : Layout) (o : Obj) : Decidable (Dom T L o) := by unfold Dom; infer_instance
+
+/-- `n` consecutive columns of width `w` starting at `p` -/
+def colsFrom (p w : Nat) : Nat → List (Nat × Nat)
+  | 0 => []
+  | n + 1 => (p, p + w) :: colsFrom (p + w) w n
+
+/-- the CONECT reader cuts the columns the CONECT writer fills: `CONECT`, the serial, four partners -/
+def ConectOK (L : Layout) : Prop :=
+  L.cSerial = (6, 6 + L.conW) ∧ L.cOthers = colsFrom (6 + L.conW) L.conW 4
+
+instance (L : Layout) : Decidable (ConectOK L) := by unfold ConectOK; infer_instance
+
+/-- domain of the full model: as `Dom`, with any list of bonds between existing atoms whose serials fit the CONECT columns -/
+def DomB (T : Tables) (L : Layout) (o : Obj) : Prop :=
+  okTitle o.title = true ∧ o.atoms ≠ [] ∧ o.atoms.length < 10 ^ L.serialW ∧ 0 < L.serialW ∧
+  (∀ a ∈ o.atoms, AtomOK T L a) ∧ o.atoms.length < 10 ^ L.conW ∧ 0 < L.conW ∧
+  (∀ b ∈ o.bonds, b.1 < o.atoms.length ∧ b.2 < o.atoms.length)
+
+instance (T : Tables) (L : Layout) (o : Obj) : Decidable (DomB T L o) := by unfold DomB; infer_instance
 
 end Iodata.Fmt.Pdb
 
